@@ -554,6 +554,101 @@ def run_lock(ctx, r, drv, hl):
                 r.sample({'input_and_schedule': i_, 'observed': o_})
 
 
+# ---------------------------------------------------------------------------- LIFE: lifetime of the shared state
+KIND_NAME = {'SP': 'split', 'ES': 'ensure_started', 'ST': 'split_tuple'}
+# replayed on every run: the schedules on which split_tuple's predecessor thread used the freed shared state while its
+# receiver held a plain reference (KNOWN_FINDINGS.txt, fixed:) — P2 and P3, P3 only, 3 consumers, error / stopped
+# completion, one operation state destroyed later by its owner — and the same schedules for split / ensure_started
+LIFE_FIXED = [('ST', 'V', 2, '11', '1,0,0,1,2,2,0,0'), ('ST', 'V', 2, '11', '1,0,0,0,1,2,2,0'),
+              ('ST', 'V', 3, '111', '1,0,0,1,2,2,3,3,0,0'), ('ST', 'E', 2, '10', '1,0,0,1,2,2,2,0,0'),
+              ('ST', 'S', 2, '11', '1,0,0,1,2,0,2,0'), ('ST', 'V', 2, '00', '1,0,0,1,2,2,1,2,0,0'),
+              ('SP', 'V', 2, '11', '1,0,0,1,2,2,0,0'), ('ES', 'V', 1, '1', '0,0,1,1,0,0')]
+
+
+def hl_fields(o_):
+    return dict(x.split('=', 1) for x in o_.split(' ')[3:] if '=' in x)
+
+
+def hl_monitor(i_, o_):
+    """independent of the model: no member of the shared state is touched after it was freed; every consumer signalled
+    exactly once; the shared state is freed once every operation state is gone; one allocation"""
+    q = i_.split(' ')
+    kind, n = q[3], int(q[5])
+    f = hl_fields(o_)
+    if f.get('bad', '-') != '-':
+        acc = ', '.join('thread %s released from site %s' % tuple(b.split('.')) for b in f['bad'].split(','))
+        return ('%s:state_used_after_free' % KIND_NAME[kind],
+                'the shared state was deallocated by thread %s (last reference released) and accessed afterwards: %s '
+                '(site 2 = lock_guard on mtx in set_predecessor_done, 3 = continuations)' % (f.get('freed'), acc))
+    if 'STUCK' in o_:
+        return ('life:%s:stuck' % kind, 'parked threads but none may run')
+    sig = f.get('sig', '').split('|')
+    if len(sig) != n or any(not x.startswith('1:') for x in sig):
+        return ('life:%s:consumer_signals' % kind, 'not every consumer was signalled exactly once: %s' % f.get('sig'))
+    if f.get('freed', '-') == '-':
+        return ('life:%s:state_leaked' % kind, 'every operation state was destroyed but the shared state was never deallocated')
+    if f.get('allocs') != '1':
+        return ('life:%s:allocations' % kind, 'expected one allocation through the adaptor\'s allocator, saw %s' % f.get('allocs'))
+    return None
+
+
+def run_life(ctx, r, drv, hl):
+    n = 1500 if ctx.tier == 'quick' else 20000
+    ins, outs = [], []
+    # fixed witnesses first
+    for k, (kind, chan, nc, obits, sched) in enumerate(LIFE_FIXED):
+        rc, out = sh([hl, 'replay', 'HL', kind, chan, str(nc), obits, sched], timeout=60)
+        li = [x for x in out.split('\n') if x.startswith('IN HL ')]
+        lo = [x for x in out.split('\n') if x.startswith('OUT HL ')]
+        rep = {'harness': 'c03_lock', 'args': ['replay', 'HL', kind, chan, nc, obits, sched]}
+        if len(li) != 1 or len(lo) != 1:
+            r.hits.append(Hit('monitor', 'C03:life:%s:died' % kind, 'fixed lifetime case %s %s %d %s %s: the process running the real %s '
+                              'ended with status %d: %s' % (kind, chan, nc, obits, sched, KIND_NAME[kind], rc, out[-300:]), rep))
+            continue
+        ins.append((li[0].replace('IN HL 0 ', 'IN HL f%d ' % k), rep))
+        outs.append(lo[0].replace('OUT HL 0 ', 'OUT HL f%d ' % k))
+    rc, out = sh([hl, 'life', str(ctx.seed), str(n)], timeout=400 if ctx.tier == 'quick' else 3000)
+    lines = out.split('\n')
+    rep0 = {'harness': 'c03_lock', 'args': ['life', ctx.seed, n]}
+    if rc != 0:
+        r.hits.append(Hit('tie', 'C03:lock_harness', 'lock-step harness (life) failed rc=%d: %s' % (rc, out[-400:]), rep0))
+    ins += [(x, dict(rep0, case=x)) for x in lines if x.startswith('IN HL ')]
+    outs += [x for x in lines if x.startswith('OUT HL ')]
+    for d in [x for x in lines if x.startswith('DIED ')]:
+        p = d.split(' ')
+        r.hits.append(Hit('monitor', 'C03:life:died:%s' % p[3], 'lifetime case %s of seed %d: the process running the real shared state %s'
+                          % (p[2], ctx.seed, {'abort': 'aborted', 'hang': 'hung', 'segv': 'crashed', 'stuck': 'got stuck'}.get(p[3], p[3])),
+                          dict(rep0, case_index=p[2])))
+    rc2, mout = sh([drv], input='\n'.join(i for i, _ in ins) + '\n', timeout=1200)
+    mo = {l.split(' ', 3)[2]: l for l in mout.split('\n') if l.startswith('OUT HL ')}
+    io = {l.split(' ', 3)[2]: l for l in outs}
+    shown = 0
+    for i_, rep in ins:
+        q = i_.split(' ')
+        r.evaluations += 1
+        o_ = io.get(q[2])
+        if o_ is None:
+            continue
+        rep = dict(rep, case=i_, observed=o_)
+        r.count('life=%s/inside=%s' % (q[3], 'all' if '0' not in q[6] else 'none' if '1' not in q[6] else 'some'))
+        if len(set(q[-1].split(','))) >= 2:
+            r.nontrivial(i_)
+        m = hl_monitor(i_, o_)
+        if m:
+            r.hits.append(Hit('monitor', 'C03:' + m[0], '%s, %s consumers, operation states destroyed inside the signal: %s — %s [%s]'
+                              % (KIND_NAME[q[3]], q[5], q[6], m[1], i_), rep))
+        ml = mo.get(q[2])
+        if ml is None:
+            r.hits.append(Hit('tie', 'C03:model_driver', 'model produced no line for %s' % i_, rep))
+        elif ml == o_:
+            r.traces += 1
+        else:
+            r.hits.append(Hit('corr', 'C03:life:correspondence', 'lifetime %s: implementation [%s] model [%s]' % (i_, o_, ml), dict(rep, model=ml)))
+        if shown < 2 and q[3] == 'ST' and '1' in q[6]:
+            shown += 1
+            r.sample({'input_and_schedule': i_, 'observed': o_})
+
+
 # ---------------------------------------------------------------------------- the real-concurrency STRESS part
 ST_NAME = {'SPI': 'split (predecessor completes inline in start)', 'SPA': 'split (predecessor completes from a racing thread)',
            'ES': 'ensure_started (consumer start races the predecessor completion)',
@@ -627,7 +722,7 @@ def run(ctx):
               'boxed in unique_any_sender, and compared with the extracted evaluator (equal when all leaves are inline, '
               'member of den otherwise); plus a statically typed un-erased corpus. LOCKSTEP: split/ensure_started/'
               'split_tuple hand-off and when_all(_vector) join under controller-chosen interleavings replayed by '
-              'Model/Handoff.v. STRESS (c03_lock stress): real concurrency, no controller — K in {2,3,4} consumers of ONE split '
+              'Model/Handoff.v. LIFE (c03_lock life): the same hand-off with the shared state allocated on pages of its own through the adaptor\'s allocator argument, made inaccessible by deallocate; consumers destroy their operation states inside the signal or in a later scheduled step (oracle per consumer); every access to the freed state faults and is recorded; compared with l_bad / l_rel of Model/HandoffLife.v; 8 fixed schedules (the former split_tuple use-after-free) are replayed first. STRESS (c03_lock stress): real concurrency, no controller — K in {2,3,4} consumers of ONE split '
               'sender (K in {2,3} element senders of one split_tuple; for ensure_started the single consumer against the '
               'predecessor completion) are released from a spin barrier with offsets swept over 0..255 spin iterations and call '
               'start() at the same instant; predecessor = counting leaf | then(counting callable), completing inline or from one '
@@ -640,6 +735,7 @@ def run(ctx):
     hl = ctx.build_harness('c03_lock', 'c03_lock.cpp')
     run_pipes(ctx, r, drv, hp)
     run_lock(ctx, r, drv, hl)
+    run_life(ctx, r, drv, hl)
     if not ctx.replay:
         run_stress(ctx, r, hl)
     return r
